@@ -151,14 +151,14 @@ static void enumerate(void) {
         truncation(out.p, out.n, "c18a:adversarial-length-magic-records"); mc_count("cuts", out.n); ref_buf_free(&out); ref_arena_free(&RA);
     }
     mc_stage("b.failing-sinks.every-offset.every-invocation");
-    for (int k = 0; k < 210; k += (mc_thorough() ? 2 : 5)) {
+    for (int k = 0; k < 210; k += (mc_thorough() ? 1 : 2)) {
         if (!mc_next()) continue;
         hist_t h; seed_hist(k, &h); char fd[760]; snprintf(fd, sizeof fd, "c18b:%s", tbl_desc(&h)); mc_desc("%s", fd); mc_case_key(mc_mix(0x18b, (uint64_t)k)); mc_nontrivial(); mc_feature("sink");
         uint8_t* img; size_t len; carquet_status_t st; const char* where; if (tbl_write(&h, &img, &len, &st, &where)) { mc_count("seed.writer-refused", 1); continue; }
         sink_faults(&h, img, len, fd, mc_thorough()); free(img);
     }
     mc_stage("c.abort-after-every-operation");
-    for (int k = 0; k < 210; k += (mc_thorough() ? 1 : 3)) {
+    for (int k = 0; k < 210; k += 1) {
         if (!mc_next()) continue;
         hist_t h; seed_hist(k, &h); char fd[760]; snprintf(fd, sizeof fd, "c18c:%s", tbl_desc(&h)); mc_desc("%s", fd); mc_case_key(mc_mix(0x18c, (uint64_t)k)); mc_nontrivial(); mc_feature("abort");
         abort_points(&h, fd);
